@@ -73,8 +73,66 @@ func isIPNetSlice(e ast.Expr) bool {
 	return ok && x.Name == "net" && se.Sel.Name == "IPNet"
 }
 
-// Load parses <repo>/clientip/clientip.go.
+// Consts are the numeric constants of the entry parser extracted from the source.
+type Consts struct {
+	ForwardedMaxParts int // the N of iterutil.Take(iterutil.SplitStringSeq(fwd, ";"), N) in parseForwardedListItem
+}
+
+const wantForLoop = `iterutil.Take(iterutil.SplitStringSeq(fwd, ";"), %s)`
+
+// forwardedLoop finds the single `for fp := range iterutil.Take(iterutil.SplitStringSeq(fwd, ";"), <int literal>)`
+// statement of parseForwardedListItem; any other way of enumerating the parameters is refused.
+func forwardedLoop(fset *token.FileSet, path string, d *ast.FuncDecl) (int, error) {
+	n, found := 0, 0
+	var bad error
+	ast.Inspect(d.Body, func(x ast.Node) bool {
+		switch st := x.(type) {
+		case *ast.RangeStmt:
+			found++
+			call, ok := st.X.(*ast.CallExpr)
+			if !ok || len(call.Args) != 2 {
+				bad = fmt.Errorf("%s: parseForwardedListItem ranges over %s, not over "+wantForLoop, path, src(fset, st.X), "<n>")
+				return false
+			}
+			lit, ok := call.Args[1].(*ast.BasicLit)
+			if !ok || lit.Kind != token.INT || src(fset, st.X) != fmt.Sprintf(wantForLoop, lit.Value) {
+				bad = fmt.Errorf("%s: parseForwardedListItem ranges over %s, not over "+wantForLoop, path, src(fset, st.X), "<n>")
+				return false
+			}
+			v, err := strconv.Atoi(lit.Value)
+			if err != nil || v < 1 || v > 64 {
+				bad = fmt.Errorf("%s: parseForwardedListItem: unusable part limit %s", path, lit.Value)
+				return false
+			}
+			n = v
+		case *ast.ForStmt:
+			found += 2 // a classic for loop is a shape we do not know
+		}
+		return true
+	})
+	if bad != nil {
+		return 0, bad
+	}
+	if found != 1 {
+		return 0, fmt.Errorf("%s: parseForwardedListItem: expected exactly one range loop over the parameters, found another loop structure", path)
+	}
+	return n, nil
+}
+
+// Load parses <repo>/clientip/clientip.go and returns the tables only (the shape of
+// parseForwardedListItem is not examined: the harness must run on trees where it changed).
 func Load(repo string) (map[string][]Range, error) {
+	return load(repo, nil)
+}
+
+// LoadAll parses <repo>/clientip/clientip.go.
+func LoadAll(repo string) (map[string][]Range, Consts, error) {
+	var consts Consts
+	t, err := load(repo, &consts)
+	return t, consts, err
+}
+
+func load(repo string, consts *Consts) (map[string][]Range, error) {
 	path := filepath.Join(repo, "clientip", "clientip.go")
 	fset := token.NewFileSet()
 	f, err := parser.ParseFile(fset, path, nil, parser.SkipObjectResolution)
@@ -95,6 +153,17 @@ func Load(repo string) (map[string][]Range, error) {
 				if got := src(fset, d); got != wantMustParseCIDR {
 					return nil, fmt.Errorf("%s: mustParseCIDR has an unrecognised body:\n%s", path, got)
 				}
+				seenFn[d.Name.Name] = true
+			case "parseForwardedListItem":
+				if consts == nil {
+					seenFn[d.Name.Name] = true
+					continue
+				}
+				n, err := forwardedLoop(fset, path, d)
+				if err != nil {
+					return nil, err
+				}
+				consts.ForwardedMaxParts = n
 				seenFn[d.Name.Name] = true
 			case "isIPContainedInRanges":
 				d.Doc = nil
@@ -163,7 +232,7 @@ func Load(repo string) (map[string][]Range, error) {
 			return nil, fmt.Errorf("%s: table %q not found", path, n)
 		}
 	}
-	for _, n := range []string{"mustParseCIDR", "isIPContainedInRanges"} {
+	for _, n := range []string{"mustParseCIDR", "isIPContainedInRanges", "parseForwardedListItem"} {
 		if !seenFn[n] {
 			return nil, fmt.Errorf("%s: func %s not found", path, n)
 		}
